@@ -300,6 +300,12 @@ theorem insertion_keeps_hashcons_functional {s s' : Snap} {n syn : Node} {f2o : 
     (s'.classes.flatMap fun c => c.nodes.map (·.1)).Nodup :=
   Snap.add_keeps_shapes_unique hok hu h
 
+/-- the same in the form the checker evaluates: `shapesUnique` before gives `shapesUnique` after -/
+theorem insertion_keeps_shapesUnique {s s' : Snap} {n syn : Node} {f2o : SlotMap} {data : String} {a : AppId}
+    (hok : Snap.AddOK s) (hu : Snap.shapesUnique s = true) (h : Snap.addNew s n f2o syn data = some (s', a)) :
+    Snap.shapesUnique s' = true :=
+  Snap.add_keeps_shapesUnique hok hu h
+
 /-- **a modelled insertion disturbs no class from before**: every class of the state before is a class of the state after and satisfies
 there every per-class conjunct of `checkInv` it satisfied before (sorted slots, leader entry, generators, node entries, canonical
 children).  With `insertion_keeps_union_find_consistent` and `insertion_keeps_hashcons_functional` what remains per run of `checkInv`
